@@ -115,7 +115,7 @@ class G:
             b['else'] = True
         else:
             b['needs'] = [self.txt()]
-        b['steps'] = [self.step(d + 1) for _ in range(self.r.randint(0, 2))]
+        b['steps'] = self.jumps([self.step(d + 1) for _ in range(self.r.randint(0, 2))])
         return b
 
     def wf(self):
@@ -129,8 +129,17 @@ class G:
         self.opt(w, 'outputs', self.vars)
         self.opt(w, 'setup', lambda: [self.act(1, True) for _ in range(self.r.randint(0, 2))], 0.3)
         self.opt(w, 'on', lambda: [{'id': self.nid('ev'), 'uses': 'acts.event.manual', 'params': self.vars()} for _ in range(self.r.randint(0, 2))])
-        w['steps'] = [self.step(1) for _ in range(self.r.randint(0, 4))]
+        w['steps'] = self.jumps([self.step(1) for _ in range(self.r.randint(0, 4))])
         return w
+
+    def jumps(self, steps):
+        """a backward `next` on one of the steps (also on one that is not the last of its list): the tree still contains
+        every step of the list"""
+        if self.all_ids and len(steps) >= 2 and self.r.random() < 0.25:
+            i = self.r.randrange(1, len(steps))
+            if not steps[i].get('branches'):
+                steps[i]['next'] = steps[self.r.randrange(0, i)]['id']
+        return steps
 
 
 def expected_tree(w):
@@ -141,7 +150,7 @@ def expected_tree(w):
 
     def steps(lst, level):
         for i, st in enumerate(lst):
-            nxt = lst[i + 1].get('id', '?') if i + 1 < len(lst) else 'nil'
+            nxt = lst[i + 1].get('id', '?') if i + 1 < len(lst) else (st.get('next') or 'nil')
             node('step', st, level, nxt)
             for b in st.get('branches', []):
                 node('branch', b, level + 1, 'nil')
@@ -197,6 +206,8 @@ def expected_nodes(w):
                 steps(c.get('steps'), i, level + 1, 'Catch', c.get('on'))
             for t in st.get('timeout') or []:
                 steps(t.get('steps'), i, level + 1, 'Timeout', t.get('on'))
+            if st.get('next'):
+                N[i]['next'] = st['next']          # (the link to a following step of the list, made next, replaces it)
             prev = i
     node(w['id'], 'workflow', 0)
     steps(w.get('steps'), w['id'], 1, 'Normal', None)
@@ -319,12 +330,20 @@ class ModelFamily:
         nd = rng.randint(1, 3)
         y = json.dumps(w, ensure_ascii=False)
         ops = [{'op': 'roundtrip', 'yaml': y}]
-        ops += [{'op': 'deploy', 'yaml': y} for _ in range(nd)]
+        wfinal = None
+        if dup is None and rng.random() < 0.3:
+            # the last deploy carries one more `on` entry (appended): it gets its start event like the others
+            wfinal = json.loads(json.dumps(w))
+            wfinal['on'] = (wfinal.get('on') or []) + [{'id': 'evx%d' % rng.randint(0, 999), 'uses': 'acts.event.manual', 'params': {'n': rng.randint(0, 9)}}]
+            nd = max(nd, 2)
+            ops += [{'op': 'deploy', 'yaml': y} for _ in range(nd - 1)] + [{'op': 'deploy', 'yaml': json.dumps(wfinal, ensure_ascii=False)}]
+        else:
+            ops += [{'op': 'deploy', 'yaml': y} for _ in range(nd)]
         ops += [{'op': 'model_get', 'id': w['id'], 'fmt': 'json'}, {'op': 'model_get', 'id': w['id'], 'fmt': 'tree'}, {'op': 'evt_list'},
                 {'op': 'start', 'mid': 'nosuchmodel' + str(rng.randint(0, 9)), 'vars': {}},
                 {'op': 'model_rm', 'id': w['id']}, {'op': 'evt_list'}]
         sc = {'id': '', 'family': 'model', 'sched': 'cur', 'runtime': {'flavor': 'current'}, 'engine': {'store': rng.choice(['mem', 'mem', 'mem', 'sqlite'])}, 'models': [], 'responder': {'rules': []}, 'ops': ops}
-        return {'scenarios': [sc], 'meta': {'wf': w, 'dup': dup, 'nd': nd}, 'digest': digest(w), 'nontrivial': len(g.ids) >= 3}
+        return {'scenarios': [sc], 'meta': {'wf': w, 'dup': dup, 'nd': nd, 'wf_final': wfinal}, 'digest': digest([w, wfinal is not None]), 'nontrivial': len(g.ids) >= 3}
 
     def judge(self, c, opts, obs):
         out = []
@@ -369,7 +388,9 @@ class ModelFamily:
             except Exception:
                 stored = None
             want = json.loads(json.dumps(rt['v1']))
-            if stored is not None:
+            if m.get('wf_final'):
+                want = None          # (the stored text is the last deploy's; its events are what this case looks at)
+            if stored is not None and want is not None:
                 # the stored model carries the version it was deployed with
                 s2 = dict(stored)
                 w2 = dict(want)
@@ -378,7 +399,7 @@ class ModelFamily:
                 if s2 != w2:
                     out.append(V('C20', 'stored-model-differs', self.diffpath(w2, s2), f"stored model differs from the deployed one at {self.diff(w2, s2)[:3]}", scenario=sid))
         # one start event per `on` entry
-        ons = w.get('on') or []
+        ons = (m.get('wf_final') or w).get('on') or []
         rows = [r for r in (ev1.get('rows') or []) if r['mid'] == w['id']]
         if len(rows) != len(ons):
             out.append(V('C20', 'event-count', f"{len(ons)}->{len(rows)}", f"{len(ons)} `on` entries but {len(rows)} registered events", scenario=sid))
